@@ -5,6 +5,7 @@
 #include <stdio.h>
 #include <stdlib.h>
 #include <string.h>
+#include <errno.h>
 
 #if VH_ASAN
 #include <sanitizer/asan_interface.h>
@@ -110,6 +111,9 @@ void vh_ctx_free(vh_ctx_t * v) {
 scpi_bool_t vh_input(vh_ctx_t * v, const void * data, size_t len) {
     /* hand the library an exact-size copy so that over-reads of the caller's chunk trap */
     scpi_bool_t r;
+    /* errno is process state the application may leave in any condition (an earlier overflowing strtol/strtod of its own):
+     * the library's behaviour must not depend on it */
+    { static unsigned turn; static const int vals[4] = { 0, ERANGE, 0, EDOM }; errno = vals[turn++ & 3]; }
     if (len == 0) return SCPI_Input(v->ctx, NULL, 0);
     {
         char * copy = (char *) malloc(len);
